@@ -676,7 +676,7 @@ func TestVerifC23(t *testing.T) {
 	dir := verifOutDir(t)
 	r := newVerifRNG(verifSeed())
 	thorough := os.Getenv("VERIF_TIER") == "thorough"
-	nRT, nMal, nStreams := 200, 700, 60
+	nRT, nMal, nStreams := 200, 600, 50
 	if thorough {
 		nRT, nMal, nStreams = 1200, 6000, 400
 	}
@@ -898,7 +898,7 @@ func TestVerifC23(t *testing.T) {
 		}
 		w.put(e.runCase(idx, "md-block", b, []int{5}))
 		idx++
-		if len(b) > 400 {
+		if len(b) > 400 || (!thorough && j%2 == 1) {
 			continue
 		}
 		for _, m := range c23MDMutations(r, b) {
